@@ -69,7 +69,7 @@ theorem insert_layout (c : Ctx) (fl : QFlags) (from_ : List Src) (withs : List (
         kws " VALUES (" :: joinDocs (K "),(") (renderRows { k with withAlias := true, subquery := true } values) ++ K ")" := by
   have hne : values.isEmpty = false := by cases values <;> simp_all
   rw [renderQuery_eq_1]
-  simp only [hcls, hdel, hinto, hne, queryIsEmpty, Option.isSome_none, Option.isSome_some, Bool.false_and, Bool.and_false,
+  simp only [hinted, hcls, hdel, hinto, hne, queryIsEmpty, Option.isSome_none, Option.isSome_some, Bool.false_and, Bool.and_false,
     Bool.or_false, Bool.not_false, Bool.and_true, Bool.false_or, Bool.false_eq_true, if_false, stmtCtx, opt,
     List.append_assoc, reduceCtorEq, Bool.and_self, List.nil_append, List.append_nil, decide_false, Bool.true_and,
     Bool.not_true, Bool.true_eq_false, if_true, renderOptSrc_eq_2]
@@ -89,7 +89,7 @@ theorem update_layout (c : Ctx) (fl : QFlags) (withs : List (Str × Src)) (selec
         opt wheres.isSome (K " WHERE ") ++ renderOpt { k with quote := .given k.q, subquery := true } wheres := by
   have hne : updates.isEmpty = false := by cases updates <;> simp_all
   rw [renderQuery_eq_1]
-  simp only [hcls, hne, hlim, queryIsEmpty, Option.isSome_some, Option.isSome_none, Bool.false_and, Bool.and_false,
+  simp only [hinted, hcls, hne, hlim, queryIsEmpty, Option.isSome_some, Option.isSome_none, Bool.false_and, Bool.and_false,
     Bool.or_false, Bool.not_false, Bool.and_true, Bool.false_or, Bool.false_eq_true, if_false, stmtCtx, opt,
     List.append_assoc, reduceCtorEq, Bool.and_self, List.nil_append, List.append_nil, decide_false, Bool.true_and,
     Bool.not_true, Bool.true_eq_false, if_true, renderOptSrc_eq_2, List.isEmpty_nil, List.length_nil, Bool.or_self]
@@ -109,7 +109,7 @@ theorem delete_layout (c : Ctx) (fl : QFlags) (t : Src) (selects : List Term)
       K "DELETE" ++ kws " FROM " :: renderSrc { k with withNamespace := false, subquery := true, withAlias := true } t ++
         opt wheres.isSome (K " WHERE ") ++ renderOpt { k with quote := .given k.q, subquery := true } wheres := by
   rw [renderQuery_eq_1]
-  simp [hcls, hdel, hfi, hui, hlim, hoff, hfu, hsub, hal, queryIsEmpty, stmtCtx, opt, fromClause, indexDoc, paginate,
+  simp [hinted, hcls, hdel, hfi, hui, hlim, hoff, hfu, hsub, hal, queryIsEmpty, stmtCtx, opt, fromClause, indexDoc, paginate,
     forUpdateDoc, parensIf, renderSrcL_eq_2, renderSrcL_eq_1, joinDocs, renderOpt_eq_1]
 
 /-- **INSERT ... SELECT**: head, table, column list, then the SELECT with its own clause chain -/
@@ -133,7 +133,7 @@ theorem insert_select_layout (c : Ctx) (fl : QFlags) (from_ : List Src) (selects
   have hne : selects.isEmpty = false := by cases selects <;> simp_all
   have hfe : from_.isEmpty = false := by cases from_ <;> simp_all
   rw [renderQuery_eq_1]
-  simp [hcls, hdel, hinto, hne, hfe, hfi, hui, hlim, hoff, hfu, hsub, hal, hd, queryIsEmpty, stmtCtx, opt, fromClause, indexDoc,
+  simp [hinted, hcls, hdel, hinto, hne, hfe, hfi, hui, hlim, hoff, hfu, hsub, hal, hd, queryIsEmpty, stmtCtx, opt, fromClause, indexDoc,
     paginate, forUpdateDoc, parensIf, selectPrefix, renderOpt_eq_1, renderOptSrc_eq_2]
 
 end Pypika.C05
